@@ -286,7 +286,7 @@ func c13() int {
 	// (2) BFS over all chains up to the length bound over the 12-shape alphabet
 	maxLen := 3
 	if rep.Thorough() {
-		maxLen = 4
+		maxLen = 5
 	}
 	type node struct {
 		last *ledger.ChainedLog
